@@ -126,6 +126,7 @@ struct Script
   vf::raw_atomic<int> exports{0};
   vf::raw_atomic<uint64_t> batch_ids{0};
   uint64_t seed = 1;
+  uint64_t id   = 0;  // 0 = the exporter under observation, >= 1 = decoy exporters of provider subjects
 };
 
 static void script_delay(Script &s, uint64_t salt)
@@ -173,17 +174,17 @@ static sdkcommon::ExportResult do_export(Script &s, size_t n, ItemFn item)
 static bool do_exp_flush(Script &s)
 {
   auto &L = EventLog::get();
-  L.add(kExpFlushEnter);
+  L.add(kExpFlushEnter, s.id);
   script_delay(s, 77);
-  L.add(kExpFlushExit);
+  L.add(kExpFlushExit, s.id);
   return !s.flush_false;
 }
 static bool do_exp_shutdown(Script &s)
 {
   auto &L = EventLog::get();
-  L.add(kExpShutdownEnter);
+  L.add(kExpShutdownEnter, s.id);
   script_delay(s, 99);
-  L.add(kExpShutdownExit);
+  L.add(kExpShutdownExit, s.id);
   return !s.shutdown_false;
 }
 
@@ -406,6 +407,7 @@ struct TracerProviderSubject : Subject
     {
       auto ds  = std::make_shared<Script>();
       ds->seed = seed + static_cast<uint64_t>(i);
+      ds->id   = static_cast<uint64_t>(i + 1);
       decoys.push_back(ds);
       // decoy exporters log into the same event log; give their batch ids a disjoint range
       ds->batch_ids.store(1000000ull * static_cast<uint64_t>(i + 1), std::memory_order_relaxed);
@@ -458,6 +460,7 @@ struct LoggerProviderSubject : Subject
     {
       auto ds  = std::make_shared<Script>();
       ds->seed = seed + static_cast<uint64_t>(i);
+      ds->id   = static_cast<uint64_t>(i + 1);
       ds->batch_ids.store(1000000ull * static_cast<uint64_t>(i + 1), std::memory_order_relaxed);
       decoys.push_back(ds);
       if ((seed >> i) & 1)
@@ -717,16 +720,20 @@ static void check_history(const Config &c, const char *subject_name, const std::
         }
         break;
       case kExpFlushEnter:
-        open_flush_by_tid[e.tid] = e.t;
+        if (e.a == 0)
+          open_flush_by_tid[e.tid] = e.t;
         break;
       case kExpFlushExit:
-        exp_flush.emplace_back(open_flush_by_tid[e.tid], e.t);
+        if (e.a == 0)
+          exp_flush.emplace_back(open_flush_by_tid[e.tid], e.t);
         break;
       case kExpShutdownEnter:
-        open_shut_by_tid[e.tid] = e.t;
+        if (e.a == 0)
+          open_shut_by_tid[e.tid] = e.t;
         break;
       case kExpShutdownExit:
-        exp_shutdown.emplace_back(open_shut_by_tid[e.tid], e.t);
+        if (e.a == 0)
+          exp_shutdown.emplace_back(open_shut_by_tid[e.tid], e.t);
         break;
       case kFlushCall:
         flush_idx[e.a] = flushes.size();
@@ -773,9 +780,9 @@ static void check_history(const Config &c, const char *subject_name, const std::
     }
     R.count("simple_calls_while_another_caller_inside", contended);
   }
-  // NOTE: decoy exporters' flush/shutdown events are indistinguishable from the observed exporter's; provider
-  // subjects therefore judge "exporter flush/shutdown" clauses only when there is no decoy (extra_processors == 0).
-  bool decoys = c.extra_processors > 0;
+  // decoy exporters of provider subjects stamp their own id into their events and are ignored above, so the
+  // exporter flush/shutdown clauses are judged for every subject
+  bool decoys = false;
 
   uint64_t first_shutdown_call = ~0ull, first_shutdown_ret = ~0ull;
   for (auto &s : shutdowns)
